@@ -119,6 +119,8 @@ class Builder(object):
                 kinds += ["loop"]
             if self.g["split"] and self.g["join"] and self.g["fork"] and not in_loop and self.budget >= 7:
                 kinds += ["splitjoin"]
+            if self.g["join"] and self.g["fork"] and not in_loop and self.budget >= 7:
+                kinds += ["nestedjoin"]
         if self.budget <= 1:
             kinds = ["task"]
         kind = self.r.choice(kinds)
@@ -182,6 +184,32 @@ class Builder(object):
         self.link([self.slot(x), self.slot(ys[-1])], j)
         self.tasks[j]["join"] = self.r.choice(["all", "all", 2])
         return head, [self.slot(j)]
+
+    def b_nestedjoin(self, depth, in_loop):
+        """fork -> (p, r); r -> q; q feeds two joins, j1 (with p) and j2 (with j1), without
+        publishing: the same context arrives at j2 twice, once directly and once resolved against
+        the other branch at j1.  The two branches publish the same variable independently."""
+        head = self.new_task()
+        p_, r_ = self.new_task(), self.new_task()
+        self.tasks[head]["next"].append({"when": self.main_when(), "publish": [], "do": [p_, r_]})
+        q = self.new_task()
+        j1, j2 = self.new_task(), self.new_task()
+        v = self.r.choice(self.vars) if self.g["publish"] and self.vars else None
+        sp, sr = self.slot(p_, None), self.slot(r_, None)
+        if v is not None:
+            self.tasks[p_]["next"][sp[1]]["publish"].append([v, ["lit", "p:%s.nj" % p_]])
+            self.tasks[r_]["next"][sr[1]]["publish"].append([v, ["lit", "p:%s.nj" % r_]])
+        self.link([sp], j1)
+        self.link([sr], q)
+        if self.r.random() < 0.5:
+            self.tasks[q]["next"].append({"when": None, "publish": [], "do": [j1, j2], "_plain": True})
+        else:
+            self.tasks[q]["next"].append({"when": None, "publish": [], "do": [j2], "_plain": True})
+            self.tasks[q]["next"].append({"when": None, "publish": [], "do": [j1], "_plain": True})
+        self.tasks[j1]["next"].append({"when": None, "publish": [], "do": [j2], "_plain": self.r.random() < 0.7})
+        self.tasks[j1]["join"] = "all"
+        self.tasks[j2]["join"] = "all"
+        return head, [self.slot(j2)]
 
     def b_decision(self, depth, in_loop):
         head = self.new_task(in_loop=in_loop)
@@ -296,7 +324,7 @@ class Builder(object):
                 cc = r.choice([None, None, 1, 2, 3, n + 1, "expr", 0 if False else 1])
                 if cc == "expr":
                     cname = "k%d" % self.lists
-                    self.extra_vars.append((cname, r.choice([1, 2, 3])))
+                    self.extra_vars.append((cname, r.choice([1, 2, 2, 3, 0, -1, -3])))
                     cc = ["ctx", cname]
                 t["with"] = {"items": ["ctx", xs], "key": key, "concurrency": cc}
                 t["shape"] = "list"
@@ -337,7 +365,7 @@ class Builder(object):
             for name in list(self.tasks.keys()):
                 t = self.tasks[name]
                 for ti, tr in enumerate(t["next"]):
-                    if "retry" in tr["do"]:
+                    if "retry" in tr["do"] or tr.get("_plain"):
                         continue
                     k = r.choice([0, 0, 1, 1, 2])
                     for pi in range(k):
@@ -369,7 +397,7 @@ class Builder(object):
                 sn, tr = inbound[r.randrange(len(inbound))]
                 cc = w.get("concurrency")
                 if lang._is_node(cc) and cc[0] == "ctx" and r.random() < 0.7:
-                    tr["publish"].append([cc[1], ["lit", r.choice([1, 2, 3, 4])]])
+                    tr["publish"].append([cc[1], ["lit", r.choice([1, 2, 3, 4, 0, -2])]])
                 if w["items"][0] == "ctx" and r.random() < 0.4:
                     n = r.choice([0, 1, 2, 3, 4])
                     tr["publish"].append([w["items"][1], ["lit", ["j%s_%d" % (name, j) for j in range(n)]]])
